@@ -813,7 +813,12 @@ class NoTraceOracle(Observer):
             w.twin_skip_grad.add(ev["tgt"])
             w.twin_skip_grad |= {hh for hh, ids in w.info[ev["tgt"]].fam.members.items() if ids is None}
         if ev["k"] == "backward" and out.exc == "InvalidBackprop":
-            return  # gradients written before the error are C09's / C14's subject, not a "failed operation"
+            # gradients written before the error are C09's / C14's subject, not a "failed operation":
+            # the terminal and what the pass reached before it hit the cleared tensor keep them
+            if ev.get("tgt") in w.info:
+                w.twin_skip_grad.add(ev["tgt"])
+                w.twin_skip_grad |= set(w.upstream_handles(ev["tgt"]))
+            return
         ts0, arrs0, hs0, share0 = self.snap
         ts1, arrs1, hs1, share1 = self._snapshot(w)
         kind = f"{ev['k']}:{ev.get('form') or ev.get('op') or ''}/{'injected' if ev.get('kf') else 'natural'}"
@@ -911,6 +916,10 @@ class NoMutationOracle(Observer):
             if h in fam:
                 continue
             if tgt is not None and t.data.size and tgt.size and np.shares_memory(t.data, tgt):
+                continue
+            if ev["k"] in ("inplace", "setshape") and (w.info[h].stale or w.info[h].fam.born == -1):
+                # a view left over from a cleared family: whether an update of another left-over
+                # member re-creates it is the half-forgotten-link behaviour listed under C09/C13
                 continue
             data[h] = _ck(t.data)
         self.pre = (arrs, data)
